@@ -149,3 +149,84 @@ func (x *c24ctx) r5Callback(cb *core.Graph, cbName string, bodies []c24Body) {
 		r.Info(rule, cbName+"|no-handler-variable", c.P.Pos(cb.Fn.Pos()), "the callback invokes no handler variable directly")
 	}
 }
+
+// r6Order (C24.R6): "reports no candidate after it". The flush hands the pooled candidates to the handler after it has
+// released candidatePoolLock; if gathering completes meanwhile, the callback finds the pool inactive and reports the nil
+// marker at once - in front of the pooled candidates the flush is still delivering. The deliveries are ordered before
+// the marker only if (a) they happen inside the critical section in which the pool is taken, or (b) that critical section
+// raises a "flush in progress" field which the callback's marker decision reads (and which is lowered after the last
+// delivery). Neither holds on the pinned tree: recorded as a known finding (reproducer
+// findings/C24-candidate-after-nil/finding_c24_order_test.go).
+func (x *c24ctx) r6Order(flush *core.FuncInfo, nilBody *core.Graph) {
+	c, r := x.c, x.c.R
+	const rule = "C24.R6"
+	g := c.P.GraphOf(flush)
+	info := g.Info
+	key := flush.Name() + "|pooled-candidates-delivered-before-the-callback-may-report-the-marker"
+	pos := c.P.Pos(flush.Decl.Pos())
+	cands := x.emissions(g, false)
+	if len(cands) == 0 {
+		r.Info(rule, key, pos, "flushCandidates emits no candidate")
+		return
+	}
+	var empties []int
+	for _, n := range g.Nodes {
+		if n.Ast != nil && len(x.poolWrites(info, n.Ast)) > 0 {
+			empties = append(empties, n.ID)
+		}
+	}
+	empties = c24Filter(empties, g.Live())
+	if len(empties) == 0 {
+		r.Undecided(rule, key, pos, "flushCandidates never writes the pool fields")
+		return
+	}
+	li := core.Locks(g)
+	inst := c24LockInst(li)
+	inRegion := true
+	for _, e := range cands {
+		for _, w := range empties {
+			if ok, _ := c24SameRegion(g, li, e, w, inst); !ok {
+				inRegion = false
+			}
+		}
+	}
+	// (b) a field raised in the emptying critical section and read where the callback decides about the marker
+	flag := false
+	if !inRegion && nilBody != nil {
+		raised := map[*types.Var]bool{}
+		for _, n := range g.Nodes {
+			as, ok := n.Ast.(*ast.AssignStmt)
+			if !ok {
+				continue
+			}
+			same := true
+			for _, w := range empties {
+				if ok, _ := c24SameRegion(g, li, n.ID, w, inst); !ok {
+					same = false
+				}
+			}
+			if !same {
+				continue
+			}
+			for _, l := range as.Lhs {
+				if f := core.FieldOf(info, l); f != nil && f != x.poolF && f != x.sizeF && f != x.stateF {
+					raised[f] = true
+				}
+			}
+		}
+		for _, n := range nilBody.Nodes {
+			if n.Ast == nil {
+				continue
+			}
+			core.InspectShallow(n.Ast, func(y ast.Node) bool {
+				if sel, ok := y.(*ast.SelectorExpr); ok && raised[core.FieldOf(nilBody.Info, sel)] {
+					flag = true
+				}
+				return true
+			})
+		}
+	}
+	r.Cells++
+	r.Check(inRegion || flag, rule, key, c.P.Pos(g.PosOf(cands[0])), "the pooled candidates are delivered before the callback can decide to report the marker",
+		"flushCandidates delivers the pooled candidates after releasing candidatePoolLock and leaves no in-progress mark the callback's marker decision could see: if gathering completes during the delivery the callback reports nil at once and the remaining pooled candidates are reported after the end-of-gathering marker")
+}
